@@ -84,6 +84,15 @@ Theorem C12_box_unit_cube : forall (n : nat) (c : bool) (b : box R),
 Proof. exact box_unit_cube. Qed.
 Print Assumptions C12_box_unit_cube.
 
+(* the default values extracted from the def lines of the optional parameters are the documented ones *)
+Theorem C12_defaults_documented :
+  dflt_vec_norm_which R RO = L2 /\ dflt_vec_normalized_which R RO = L2 /\ dflt_vec_normalize_which R RO = L2 /\
+  dflt_g_norm_which R RO = L2 /\ dflt_g_distance_which R RO = L2 /\ dflt_aabb_distance_which R RO = L2 /\
+  dflt_aabb_unit_cube_centered R RO = false /\
+  dflt_aabb_of_points_padding R RO = 0 /\ dflt_aabb_of_mesh_padding R RO = 0.
+Proof. exact defaults_documented. Qed.
+Print Assumptions C12_defaults_documented.
+
 (* ---------------------------------------------------------------- cross / determinants *)
 Theorem C12_cross_expansion : forall a0 a1 a2 b0 b1 b2 : R,
   g_cross R RO [a0; a1; a2] [b0; b1; b2] = [a1 * b2 - a2 * b1; a2 * b0 - a0 * b2; a0 * b1 - a1 * b0].
